@@ -3,6 +3,11 @@
 import json, subprocess
 ALL=[f"C{i:02d}" for i in range(1,21)]
 CHECKS={
+ "C13": dict(level="fault_enumeration", engine="E1-dfs",
+   technique="enumeration of failure points (k-th descriptor allocation via a filled descriptor table, refused/unreachable/conflicting/non-local endpoints, failing options), of close/create sequences, and of GC placements, each judged by a descriptor census (fstat identity) or weak-pointer reachability",
+   text="(a) every constructor {NewIO, NewTimer, Dial TCP/UDP, DialTimeout, Listen, Accept, NewPacketConn, NewUDPPeer, Open, NewMirroredBuffer} x descriptor exhaustion at allocation k=1..6 and every applicable endpoint fault: census before == after a failed call, Close after a successful one restores it; (b) all sequences of up to 4 actions {close (repeatable), owner-close, create} over 8 object kinds: every object the scenario has not closed keeps the same kernel object under its descriptor, a first Close closes exactly the object's own descriptors; (c) 6 kinds x 5 in-flight shapes x GC at each of two points: the completion callback of every in-flight operation stays reachable and the completion is delivered. Handshake failure points are explored in C18's driver with the same census.",
+   note="One census domain per worker process, automatic GC off inside an execution; fd exhaustion uses RLIMIT_NOFILE=200 and /dev/null fillers; the AsyncAdapter's net.Conn is kept by the harness in the GC family (it has a finalizer of its own).",
+   design="4/C13"),
  "C14": dict(level="exploration", engine="E1-dfs",
    technique="exhaustive enumeration of operation cycles x chain lengths on real pre-loaded descriptors with a harness nesting counter",
    text="All 1463 cycles of length 1..3 over {conn read/write, FIFO read/write, regular-file read/write, accept, packet read/write, multicast-peer read/write} x chain lengths {31,32,33,34,70}: every callback issues the next step; nesting <= MaxCallbackDispatch+1, IO.Dispatched back to 0 after every unwinding, the step issued at the limit completes after polling with the inline result, every step exactly once.",
